@@ -1063,7 +1063,12 @@ func panelSameSet(a, b []string) bool {
 // compare returns what differs between the model's expectation and the code (structure only; amounts are
 // compared by sign, since the model counts units and the code bytes)
 func (w *panelWorld) compare(exp, got *panelObs) []string {
-	var d []string
+	d, c := w.compare2(exp, got)
+	return append(d, c...)
+}
+
+// compare2 separates what differs in structure (d) from what differs only in the stored credits (c)
+func (w *panelWorld) compare2(exp, got *panelObs) (d, c []string) {
 	for i := range exp.St {
 		e, g := exp.St[i], got.St[i]
 		if e.K != g.K || e.H != g.H {
@@ -1088,8 +1093,16 @@ func (w *panelWorld) compare(exp, got *panelObs) []string {
 			d = append(d, fmt.Sprintf("activeUsers[user %d]: model record %d code record %d", u+1, exp.Act[u], got.Act[u]))
 		}
 		e, g := exp.Db[u], got.Db[u]
-		if e.X != g.X || (e.X && (e.E != g.E || e.Auth != g.Auth || (e.C.Rx <= 0) != (g.C.Rx <= 0) || (e.C.Tx <= 0) != (g.C.Tx <= 0))) {
+		if e.X != g.X || (e.X && e.E != g.E) {
 			d = append(d, fmt.Sprintf("database record of user %d: model %+v code %+v", u+1, e, g))
+		} else if e.X && (e.Auth != g.Auth || (e.C.Rx <= 0) != (g.C.Rx <= 0) || (e.C.Tx <= 0) != (g.C.Tx <= 0)) {
+			c = append(c, fmt.Sprintf("database record of user %d: model %+v code %+v", u+1, e, g))
+		} else if e.X && !w.inexact && u < len(exp.Chg) {
+			want := w.expectedCharged(exp.Chg[u])
+			have := [2]int64{w.baseCr[u+1][0] + w.topReal[u+1][0] - g.C.Rx, w.baseCr[u+1][1] + w.topReal[u+1][1] - g.C.Tx}
+			if want != have {
+				c = append(c, fmt.Sprintf("credit of user %d: the uploads so far contained %v bytes (up, down) by the model's account, %v were deducted", u+1, want, have))
+			}
 		}
 	}
 	if len(exp.Obj) != len(got.Obj) {
@@ -1114,7 +1127,7 @@ func (w *panelWorld) compare(exp, got *panelObs) []string {
 	if exp.Quiet != got.Quiet || exp.Dead != got.Dead {
 		d = append(d, fmt.Sprintf("quiet/dead: model %v/%v code %v/%v", exp.Quiet, exp.Dead, got.Quiet, got.Dead))
 	}
-	return d
+	return d, c
 }
 
 // ------------------------------------------------------------------------------------------ predicates
@@ -1277,6 +1290,20 @@ func (w *panelWorld) predicates2(got *panelObs, exp *panelObs, prev *panelObs, a
 			if charged > carried {
 				v = append(v, panelVerdict{Key: "nevermore:" + dir, What: fmt.Sprintf(
 					"user %d: %s credit went down by %d bytes but only %d bytes crossed the user's connection pools", u, dir, charged, carried)})
+			}
+			// usage contained in a completed upload must have been deducted - also by the upload that terminates the
+			// user. The model (followed by the code up to the previous step, and in everything but credits in this
+			// one) says what the completed uploads contained; it is priced with the measured frame sizes.
+			if exp != nil && agreedBefore && w.structOK && !w.inexact && u-1 < len(exp.Chg) {
+				if want := w.expectedCharged(exp.Chg[u-1])[d]; charged < want {
+					k := "exact:" + dir
+					if (u-1 < len(exp.Evt) && exp.Evt[u-1]) || !exp.Db[u-1].Auth {
+						k += ":terminating-upload"
+					}
+					v = append(v, panelVerdict{Key: k, What: fmt.Sprintf(
+						"user %d: the completed uploads contained %d bytes of %s usage (carried: %d), only %d were deducted from the stored credit",
+						u, want, dir, carried, charged)})
+				}
 			}
 			if exp != nil && agreed && exp.Rest[u-1] && got.Quiet && charged != carried {
 				v = append(v, panelVerdict{Key: "exact:" + dir, What: fmt.Sprintf(
@@ -1459,7 +1486,9 @@ func panelRun(env *panelEnv, b *panelBehaviour) (out panelOutcome) {
 		before := agreed
 		if strict || (hypo && agreed) {
 			exp = &st.Obs
-			diffs = w.compare(exp, &got)
+			sd, cd := w.compare2(exp, &got)
+			diffs = append(sd, cd...)
+			w.structOK = len(sd) == 0
 			agreed = agreed && len(diffs) == 0
 			if hypo && !agreed {
 				out.Refuted = fmt.Sprintf("step %d (%s): %s", i+1, panelEvString(st.Ev), strings.Join(diffs, "; "))
